@@ -160,6 +160,24 @@ fn decimal_rem(a: Decimal, b: Decimal) -> Option<Decimal> {
     Some(result)
 }
 
+/// `Decimal::checked_powd`, which refuses whole exponents of 2^32 and more, extended to them through
+/// x^(q * 2^31 + r) = (x^(2^31))^q * x^r
+fn checked_powd(base: Decimal, exponent: Decimal) -> Option<Decimal> {
+    let step = Decimal::from(1u64 << 31);
+    let n = exponent.abs();
+    if !n.fract().is_zero() || n < step + step {
+        return base.checked_powd(exponent);
+    }
+    let r = n % step;
+    let q = (n - r) / step;
+    let power = checked_powd(base.checked_powd(step)?, q)?.checked_mul(base.checked_powd(r)?)?;
+    if exponent.is_sign_negative() {
+        Decimal::ONE.checked_div(power)
+    } else {
+        Some(power)
+    }
+}
+
 pub fn eval(expr: Node) -> Result<Decimal, Box<dyn error::Error>> {
     #[cfg(feature = "verif_hooks")]
     crate::verif_hooks::tick(crate::verif_hooks::Point::EvalEntry);
@@ -210,9 +228,9 @@ pub fn eval(expr: Node) -> Result<Decimal, Box<dyn error::Error>> {
                     // only a few of the 28 digits, so raise the reciprocal instead
                     Decimal::ONE
                         .checked_div(base)
-                        .and_then(|reciprocal| reciprocal.checked_powd(-exponent))
+                        .and_then(|reciprocal| checked_powd(reciprocal, -exponent))
                 } else {
-                    base.checked_powd(exponent)
+                    checked_powd(base, exponent)
                 };
             power.ok_or_else(|| "Decimal overflow".into())
         }
@@ -290,7 +308,7 @@ pub fn eval(expr: Node) -> Result<Decimal, Box<dyn error::Error>> {
             let x = eval(*x_expr)?;
             Decimal::new(1, 0)
                 .checked_div(eval(*n_th_expr)?)
-                .and_then(|exponent| x.checked_powd(exponent))
+                .and_then(|exponent| checked_powd(x, exponent))
                 .ok_or_else(|| "The root is not defined for these values".into())
         }
         Min(args) => {
